@@ -376,3 +376,29 @@ def run_tlapm(ctx, module, deps, timeout=600):
         raise ToolError("tlapm did not prove %s: %s" % (module, " | ".join(p.stdout.strip().splitlines()[-6:])))
     log("TLAPS %s: %s obligations proved, %.1fs" % (module, m.group(1), time.time() - t0))
     return int(m.group(1))
+
+
+def run_apalache(ctx, module, obligations, cinit="ConstInit", timeout=900):
+    """Apalache (symbolic): each obligation (name, init predicate, invariant, length) must come out 'EXITCODE: OK'.  Used for inductive
+    invariants: (Init, IndInv, 0), (IndInit, IndInv, 1), (IndInit, Safety, 0)."""
+    import shutil
+    od = os.path.join(ctx.out, "apalache_" + module)
+    shutil.rmtree(od, ignore_errors=True)
+    t0 = time.time()
+    for name, init, inv, length in obligations:
+        cmd = ["apalache-mc", "check", "--cinit=" + cinit, "--init=" + init, "--inv=" + inv, "--length=%d" % length, "--out-dir=" + od, module + ".tla"]
+        try:
+            p = subprocess.run(cmd, cwd=SPEC, stdout=subprocess.PIPE, stderr=subprocess.STDOUT, text=True, timeout=timeout)
+        except subprocess.TimeoutExpired:
+            raise ToolError("apalache timed out on %s / %s" % (module, name))
+        open(os.path.join(ctx.out, "%s.%s.apalache.log" % (module, name)), "w").write(p.stdout)
+        if "EXITCODE: OK" not in p.stdout:
+            raise ToolError("apalache did not establish %s of %s: %s" % (name, module, " | ".join(p.stdout.strip().splitlines()[-5:])))
+        with ctx.lock:
+            ctx.tlc_cmds.append("apalache-mc " + " ".join(cmd[1:]))
+    shutil.rmtree(od, ignore_errors=True)
+    try:
+        os.rmdir(os.path.join(SPEC, "tmp"))          # apalache leaves an empty scratch directory next to the module
+    except OSError:
+        pass
+    log("Apalache %s: %d obligations established, %.1fs" % (module, len(obligations), time.time() - t0))
